@@ -674,7 +674,8 @@ class BulkIndex(Runner):
         """
         error_descriptions = []
         is_truncated = False
-        for count, error_detail in enumerate(sorted(error_details)):
+        # a failed item may carry no reason: order by status, items without a reason first (None does not compare with str)
+        for count, error_detail in enumerate(sorted(error_details, key=lambda d: (d[0], d[1] is not None, d[1] or ""))):
             status, reason = error_detail
             if count < 5:
                 if reason:
